@@ -544,6 +544,9 @@ class Lib:
                 key = coerce(idx if isinstance(idx, SV) else lift(idx), recv.typ.args[0])
                 I.require(map_dom(recv)[key.t], 'KeyError', 'map key')
                 return SV(recv.typ.args[1], map_val(recv)[key.t])
+            if k == 'Fun':
+                key = coerce(idx if isinstance(idx, SV) else lift(idx), recv.typ.args[0])
+                return SV(recv.typ.args[1], recv.t[key.t])
             if k == 'Opt':
                 I.require(z3.Not(opt_is_none(recv)), 'TypeError', 'None subscript')
                 return self.getitem(I, opt_get(recv), idx)
